@@ -8,6 +8,7 @@ import (
 	"fmt"
 	"os"
 	"runtime"
+	"runtime/pprof"
 	"strconv"
 	"strings"
 	"sync/atomic"
@@ -24,7 +25,8 @@ var baseAlphabet = []string{
 type subrun struct {
 	name   string
 	alpha  []string
-	maxLen int
+	qLen   int // bound of the quick tier
+	maxLen int // bound of this tier
 	norm   bool
 	plen   int             // prefix length of a work item
 	own    map[string]bool // symbols first listed by this sub-run (nil: main run, everything counts)
@@ -36,10 +38,13 @@ type plan struct {
 	sp      *tokSpec
 	subs    []*subrun
 	allcp   []ctx           // contexts of the all-code-points sub-run
+	nqCtx   int             // the first nqCtx contexts belong to the quick tier
 	cpOwned map[string]bool // symbols that occur in some enumerated alphabet
-	pairMax int             // code-point-pairs sub-run: all pairs of code points U+0001..pairMax
+	pairMax int             // code-point-pairs sub-run: all ordered pairs of code points U+0001..pairMax
 	pool    chan *tok
 }
+
+const pairQuickMax = 0xff
 
 func (p *plan) get() *tok {
 	select {
@@ -72,28 +77,32 @@ func ipow(b, e int) int {
 
 func mkplan(sp *tokSpec, thorough bool) *plan {
 	p := &plan{sp: sp, pool: make(chan *tok, 2*runtime.NumCPU())}
-	pick := func(q, t int) int {
-		if thorough {
-			return t
-		}
-		return q
-	}
 	mainAlpha := append(append([]string{}, baseAlphabet...), sp.s1)
-	add := func(name string, alpha []string, maxLen int, norm bool) {
-		p.subs = append(p.subs, &subrun{name: name, alpha: alpha, maxLen: maxLen, norm: norm})
+	add := func(name string, alpha []string, q, t int, norm bool) {
+		s := &subrun{name: name, alpha: alpha, qLen: q, maxLen: q, norm: norm}
+		if thorough {
+			s.maxLen = t
+		}
+		p.subs = append(p.subs, s)
 	}
-	add("main", mainAlpha, pick(5, 6), false)
-	add("two-specials", []string{"a", " ", sp.s1, sp.s2}, pick(6, 8), false)
-	add("partial-literal", []string{"a", sp.s1, sp.s1[:len(sp.s1)-1], ">", "<"}, pick(4, 6), false)
-	add("id105-106-literals", []string{"a", " ", sp.v105, sp.v106, sp.s1}, pick(4, 6), false)
+	add("main", mainAlpha, 4, 6, false)
+	add("two-specials", []string{"a", " ", sp.s1, sp.s2}, 6, 8, false)
+	add("partial-literal", []string{"a", sp.s1, sp.s1[:len(sp.s1)-1], ">", "<"}, 4, 6, false)
+	add("id105-106-literals", []string{"a", " ", sp.v105, sp.v106, sp.s1}, 4, 6, false)
+	// every kind of white space the pre-tokenizer alternatives (\s*[\r\n]+, \s+(?!\S), \s+) can meet, next to a letter and a digit
+	add("whitespace", []string{" ", "\n", "\v", "\f", "\u0085", "\u2028", "\u3000", "a", "1"}, 4, 6, false)
+	if sp.family == "bpe" {
+		// the case-insensitive contraction alternative, including the code points that fold to s and k
+		add("contractions", []string{"'", "s", "S", "t", "T", "\u017f", "\u212a", "a", " "}, 4, 6, false)
+	}
 	switch sp.name {
 	case "bpe-synth":
-		add("ab-deep", []string{"a", "b"}, pick(12, 16), false)
-		add("ab-space", []string{"a", "b", " "}, pick(8, 10), false)
+		add("ab-deep", []string{"a", "b"}, 12, 16, false)
+		add("ab-space", []string{"a", "b", " "}, 8, 10, false)
 	case "spm-synth":
-		add("ab-space", []string{"a", "b", " "}, pick(8, 10), false)
-		add("u2581", []string{"a", " ", spmSep, sp.s1}, pick(5, 7), true)
-		add("byte-token-literals", []string{"a", " ", "<0x41>", "<0x0A>", sp.s1}, pick(4, 6), false)
+		add("ab-space", []string{"a", "b", " "}, 8, 10, false)
+		add("u2581", []string{"a", " ", spmSep, sp.s1}, 5, 7, true)
+		add("byte-token-literals", []string{"a", " ", "<0x41>", "<0x0A>", sp.s1}, 4, 6, false)
 	}
 	seen := map[string]bool{}
 	for i, s := range p.subs {
@@ -114,46 +123,72 @@ func mkplan(sp *tokSpec, thorough bool) *plan {
 			s.own = map[string]bool{}
 		}
 		s.plen = 0
-		for s.plen < s.maxLen && ipow(len(s.alpha), s.plen) < 64 {
+		for s.plen < s.qLen && ipow(len(s.alpha), s.plen) < 64 {
 			s.plen++
 		}
 	}
 	p.cpOwned = seen
-	p.pairMax = pick(0xff, 0x7ff)
-	p.allcp = []ctx{{}, {pre: []string{"a"}, post: []string{"a"}}}
+	p.pairMax = pairQuickMax
 	if thorough {
+		p.pairMax = 0x7ff
+	}
+	p.allcp = []ctx{{}}
+	if sp.family == "bpe" {
+		// between two letters: exercises the class transitions of the pre-tokenizer expression
+		p.allcp = append(p.allcp, ctx{pre: []string{"a"}, post: []string{"a"}})
+	}
+	p.nqCtx = len(p.allcp)
+	if thorough {
+		if sp.family != "bpe" {
+			p.allcp = append(p.allcp, ctx{pre: []string{"a"}, post: []string{"a"}})
+		}
 		p.allcp = append(p.allcp, ctx{pre: []string{" "}}, ctx{post: []string{" "}}, ctx{pre: []string{"1"}, post: []string{"\n"}}, ctx{pre: []string{sp.s1}, post: []string{"'", "s"}})
 	}
 	return p
 }
 
-var capNoted atomic.Bool
+var stopProfile = func() {}
+
+// phase 0 = everything inside the quick-tier bounds, phase 1 = the deeper remainder (thorough only)
+var itemsTotal, itemsDone, itemsCut [2]atomic.Int64
 
 const cpChunk = 4096
 const pairChunk = 16
 
-// work executes one item: "<plan>|<subrun>|<prefix indexes>" or "<plan>|allcp|<first code point>".
+func atoi(s string) int { n, _ := strconv.Atoi(s); return n }
+
+// work executes one item:
+//
+//	<plan>|sub|<subrun>|<prefix indexes or ->|<lo>|<hi>|<phase>   strings with this prefix and lo < length <= hi
+//	<plan>|allcp|<first code point>|<ctx from>|<ctx to>|<phase>
+//	<plan>|cppairs|<first code point>|<phase>
 func work(plans []*plan, item string, r *evid.Run) {
 	f := strings.Split(item, "|")
-	pi, _ := strconv.Atoi(f[0])
-	p := plans[pi]
+	p := plans[atoi(f[0])]
+	phase := atoi(f[len(f)-1])
 	t := p.get()
 	defer p.put(t)
 	t0 := time.Now()
-	defer func() { r.Add("worker_ms/"+p.sp.name, time.Since(t0).Milliseconds()) }()
 	n := 0
+	cut := false
 	expired := func() bool {
 		n++
 		if (n == 1 || n%512 == 0) && r.Expired() {
-			if capNoted.CompareAndSwap(false, true) {
-				r.NotExhaustive("internal time budget reached: some work items (sub-run prefixes / code-point chunks) were not or only partly enumerated; the cases/* counters give what was covered")
-			}
-			return true
+			cut = true
 		}
-		return false
+		return cut
 	}
-	if f[1] == "allcp" {
-		first, _ := strconv.Atoi(f[2])
+	defer func() {
+		r.Add("worker_ms/"+p.sp.name, time.Since(t0).Milliseconds())
+		if cut {
+			itemsCut[phase].Add(1)
+		} else {
+			itemsDone[phase].Add(1)
+		}
+	}()
+	switch f[1] {
+	case "allcp":
+		first, from, to := atoi(f[2]), atoi(f[3]), atoi(f[4])
 		defer t.flush(r, "all-code-points")
 		if expired() {
 			return
@@ -166,7 +201,7 @@ func work(plans []*plan, item string, r *evid.Run) {
 			if p.sp.family == "spm" && c == spmSep {
 				continue // enumerated in the labelled u2581 sub-run
 			}
-			for _, cx := range p.allcp {
+			for _, cx := range p.allcp[from:to] {
 				syms := append(append(append([]string{}, cx.pre...), c), cx.post...)
 				t.run(r, "all-code-points", kase{syms: syms}, !p.cpOwned[c])
 			}
@@ -174,79 +209,75 @@ func work(plans []*plan, item string, r *evid.Run) {
 				return
 			}
 		}
-		return
-	}
-	if f[1] == "cppairs" {
-		first, _ := strconv.Atoi(f[2])
+	case "cppairs":
+		first := atoi(f[2])
 		defer t.flush(r, "code-point-pairs")
-		for a := first; a < first+pairChunk && a <= p.pairMax; a++ {
-			if a == 0 {
-				continue
-			}
+		hiA := p.pairMax
+		if phase == 0 {
+			hiA = pairQuickMax
+		}
+		for a := max(first, 1); a < first+pairChunk && a <= hiA; a++ {
 			ca := string(rune(a))
-			for b := 1; b <= p.pairMax; b++ {
+			lo, hi := 1, hiA
+			if phase == 1 && a <= pairQuickMax {
+				lo = pairQuickMax + 1 // the pairs with both code points <= pairQuickMax belong to phase 0
+			}
+			for b := lo; b <= hi; b++ {
 				cb := string(rune(b))
-				if p.sp.family == "spm" && (ca == spmSep || cb == spmSep) {
-					continue
-				}
 				t.run(r, "code-point-pairs", kase{syms: []string{ca, cb}}, !p.cpOwned[ca] && !p.cpOwned[cb])
 				if expired() {
 					return
 				}
 			}
 		}
-		return
-	}
-	si, _ := strconv.Atoi(f[1])
-	s := p.subs[si]
-	defer t.flush(r, s.name)
-	seq := make([]string, 0, s.maxLen)
-	owned := 0
-	counted := func() bool { return s.own == nil || owned > 0 }
-	push := func(a string) {
-		seq = append(seq, a)
-		if s.own[a] {
-			owned++
+	case "sub":
+		s := p.subs[atoi(f[2])]
+		lo, hi := atoi(f[4]), atoi(f[5])
+		defer t.flush(r, s.name)
+		seq := make([]string, 0, s.maxLen)
+		owned := 0
+		push := func(a string) {
+			seq = append(seq, a)
+			if s.own[a] {
+				owned++
+			}
 		}
-	}
-	pop := func() {
-		if s.own[seq[len(seq)-1]] {
-			owned--
+		pop := func() {
+			if s.own[seq[len(seq)-1]] {
+				owned--
+			}
+			seq = seq[:len(seq)-1]
 		}
-		seq = seq[:len(seq)-1]
-	}
-	stop := false
-	var rec func(limit int)
-	rec = func(limit int) {
-		if stop {
-			return
+		var rec func()
+		rec = func() {
+			if cut {
+				return
+			}
+			if len(seq) > lo {
+				t.run(r, s.name, kase{syms: seq, norm: s.norm}, s.own == nil || owned > 0)
+				if expired() {
+					return
+				}
+			}
+			if len(seq) >= hi {
+				return
+			}
+			for _, a := range s.alpha {
+				push(a)
+				rec()
+				pop()
+			}
 		}
-		t.run(r, s.name, kase{syms: seq, norm: s.norm}, counted())
+		if f[3] != "-" {
+			for _, x := range strings.Split(f[3], ",") {
+				push(s.alpha[atoi(x)])
+			}
+		}
 		if expired() {
-			stop = true
 			return
 		}
-		if len(seq) >= limit {
-			return
-		}
-		for _, a := range s.alpha {
-			push(a)
-			rec(limit)
-			pop()
-		}
+		rec()
 	}
-	if f[2] == "short" {
-		// everything shorter than the item prefix length
-		if s.plen > 0 {
-			rec(s.plen - 1)
-		}
-		return
-	}
-	for _, x := range strings.Split(f[2], ",") {
-		i, _ := strconv.Atoi(x)
-		push(s.alpha[i])
-	}
-	rec(s.maxLen)
 }
 
 func main() {
@@ -267,11 +298,17 @@ func main() {
 		return
 	}
 
+	if pf := os.Getenv("C20_CPUPROFILE"); pf != "" {
+		if f, err := os.Create(pf); err == nil {
+			pprof.StartCPUProfile(f)
+			stopProfile = pprof.StopCPUProfile
+		}
+	}
 	thorough := evid.Thorough()
 	if thorough {
 		r.SetDeadline(14 * time.Minute)
 	} else {
-		r.SetDeadline(70 * time.Second)
+		r.SetDeadline(85 * time.Second)
 	}
 	var plans []*plan
 	for _, sp := range specs {
@@ -279,10 +316,10 @@ func main() {
 	}
 
 	r.Rule("For each of three tokenizers built from the real code (BytePairEncoding with the real llama3.2 vocabulary via llama.New; BytePairEncoding with a synthetic byte-complete vocabulary with overlapping merges via mistral3.NewTextModel; SentencePieceModel with a synthetic gemma-layout vocabulary with 256 byte tokens): " +
-		"every string of length <= n symbols over each sub-run alphabet (main: 18 class-representative code points + one control-token literal; two-specials; literals of vocabulary entries 105/106; deep runs over {a,b} / {a,b,space}; for SPM the labelled U+2581 and <0xNN>-literal sub-runs), " +
+		"every string of length <= n symbols over each sub-run alphabet (main: 18 class-representative code points + one control-token literal; two-specials; partial control literals; literals of vocabulary entries 105/106; white-space kinds; contraction suffixes with case folding; deep runs over {a,b} / {a,b,space}; for SPM the labelled U+2581 and <0xNN>-literal sub-runs), " +
 		"every Unicode scalar value except NUL alone and inside fixed contexts (all-code-points), and every ordered pair of code points below a bound (code-point-pairs). Each case: Encode(s,false) -> ids in [0,|V|) -> Decode == s -> control-token ids appear exactly where the control literals are and the text between them round-trips -> (length <= 3) Encode(s,true) differs only by a leading BOS / trailing EOS. " +
 		"Cases are distinct by construction (each (tokenizer, string) is generated once; a sub-run case is counted only if it contains a symbol that no earlier sub-run enumerates, an all-code-points / code-point-pairs case only if its code points occur in no sub-run alphabet; the partial-literal sub-run is never counted). Non-trivial = at least one produced token covers more than one input byte (a merge, a multi-byte piece or a control literal was recognised), or SPM byte fallback was used. " +
-		"A failing case is attributed to its shortest failing contiguous sub-sequence (its core), which is re-executed 5x; the signature is family/clause/core.")
+		"A failing case is attributed to its shortest failing contiguous sub-sequence (its core), which is re-executed 5x; the signature is family/clause/defect class of the core. Work is ordered so that everything inside the quick-tier bounds is enumerated before anything deeper.")
 	r.Assume(
 		"special tokens whose literal must map to the token id = tokens of type CONTROL in the vocabulary given to the tokenizer; for the literals of vocabulary entries 105/106 (hard-coded in Vocabulary.SpecialVocabulary) only the round trip and the id range are demanded",
 		"SentencePiece represents a space as U+2581, so input that itself contains U+2581 comes back with a space there; this is inherent to the format: such inputs are enumerated in the sub-run 'u2581' with U+2581 expected back as a space and counted in spm_u2581_cases_returned_as_space, not reported",
@@ -290,51 +327,98 @@ func main() {
 		"the synthetic vocabularies are byte-complete by construction; the llama3.2 vocabulary is checked for byte completeness when it is loaded",
 		"GPT-2 byte/rune table and all expected values are computed by the harness independently of the code under test; Go's unicode/utf8 and strings packages are trusted")
 
-	// shortest cases first, sequentially, so that the reported message of a signature is its smallest input
-	var items []string
-	for pi, p := range plans {
-		for si := range p.subs {
-			work(plans, fmt.Sprintf("%d|%d|short", pi, si), r)
-		}
-	}
-	// then the prefixes of every sub-run, interleaved over tokenizers, followed by the code-point chunks
+	// shortest cases first, sequentially
 	for pi, p := range plans {
 		for si, s := range p.subs {
-			idx := make([]int, s.plen)
-			for {
-				var parts []string
-				for _, i := range idx {
-					parts = append(parts, strconv.Itoa(i))
-				}
-				items = append(items, fmt.Sprintf("%d|%d|%s", pi, si, strings.Join(parts, ",")))
-				k := s.plen - 1
-				for k >= 0 {
-					idx[k]++
-					if idx[k] < len(s.alpha) {
-						break
-					}
-					idx[k] = 0
-					k--
-				}
-				if k < 0 {
-					break
-				}
+			if s.plen > 0 {
+				itemsTotal[0].Add(1)
+				work(plans, fmt.Sprintf("%d|sub|%d|-|-1|%d|0", pi, si, s.plen-1), r)
 			}
 		}
 	}
-	for pi := range plans {
-		for cp := 0; cp <= 0x10ffff; cp += cpChunk {
-			items = append(items, fmt.Sprintf("%d|allcp|%d", pi, cp))
-		}
+	// phase 0: everything inside the quick bounds; phase 1 (thorough): the deeper remainder
+	var items []string
+	addItem := func(phase int, f string, a ...any) {
+		items = append(items, fmt.Sprintf(f, a...)+"|"+strconv.Itoa(phase))
+		itemsTotal[phase].Add(1)
 	}
-	for pi, p := range plans {
-		for a := 0; a <= p.pairMax; a += pairChunk {
-			items = append(items, fmt.Sprintf("%d|cppairs|%d", pi, a))
+	for phase := 0; phase < 2; phase++ {
+		for pi, p := range plans {
+			for si, s := range p.subs {
+				lo, hi := s.plen-1, s.qLen
+				if phase == 1 {
+					lo, hi = s.qLen, s.maxLen
+					if hi <= lo {
+						continue
+					}
+				}
+				idx := make([]int, s.plen)
+				for {
+					parts := []string{}
+					for _, i := range idx {
+						parts = append(parts, strconv.Itoa(i))
+					}
+					pre := strings.Join(parts, ",")
+					if pre == "" {
+						pre = "-"
+					}
+					addItem(phase, "%d|sub|%d|%s|%d|%d", pi, si, pre, lo, hi)
+					k := s.plen - 1
+					for k >= 0 {
+						idx[k]++
+						if idx[k] < len(s.alpha) {
+							break
+						}
+						idx[k] = 0
+						k--
+					}
+					if k < 0 {
+						break
+					}
+				}
+			}
+		}
+		for pi, p := range plans {
+			from, to := 0, p.nqCtx
+			if phase == 1 {
+				from, to = p.nqCtx, len(p.allcp)
+			}
+			if from < to {
+				for cp := 0; cp <= 0x10ffff; cp += cpChunk {
+					addItem(phase, "%d|allcp|%d|%d|%d", pi, cp, from, to)
+				}
+			}
+		}
+		for pi, p := range plans {
+			hi := pairQuickMax
+			if phase == 1 {
+				hi = p.pairMax
+				if hi <= pairQuickMax {
+					continue
+				}
+			}
+			for a := 0; a <= hi; a += pairChunk {
+				addItem(phase, "%d|cppairs|%d", pi, a)
+			}
 		}
 	}
 	r.Parallel(0, items, func(item string, sub *evid.Run) { work(plans, item, sub) })
 
+	progress := map[string]any{}
+	for ph, name := range []string{"within_quick_bounds", "deeper_than_quick_bounds"} {
+		progress[name] = map[string]int64{"work_items": itemsTotal[ph].Load(), "completed": itemsDone[ph].Load(), "cut_by_time_budget": itemsCut[ph].Load()}
+	}
+	r.Extra("work_items", progress)
+	if c0, c1 := itemsCut[0].Load(), itemsCut[1].Load(); c0+c1 > 0 {
+		if c0 == 0 {
+			r.NotExhaustive(fmt.Sprintf("internal time budget reached: every case inside the quick-tier bounds was enumerated, but only %d of the %d deeper work items (sub-run prefixes / code-point chunks beyond the quick bounds) were completed; the cases/* counters give what was executed", itemsDone[1].Load(), itemsTotal[1].Load()))
+		} else {
+			r.NotExhaustive(fmt.Sprintf("internal time budget reached: %d of the %d work items inside the quick-tier bounds and %d of the %d deeper ones were completed; the cases/* counters give what was executed", itemsDone[0].Load(), itemsTotal[0].Load(), itemsDone[1].Load(), itemsTotal[1].Load()))
+		}
+	}
+
 	reportFindings(r)
+	stopProfile()
 
 	bounds := map[string]any{}
 	for _, p := range plans {
